@@ -5,6 +5,7 @@ Rewrites (none depends on an identifier of the library):
   1. `a[b]` (load)            -> __sx_getitem__(a, b)
   2. `return e` in `__hash__` -> return __sx_hash__(e)
   3. f-strings                -> __sx_fstr__([...])
+  3b. `x.join(y)`             -> __sx_join__(x, y)   (bytes/str joins over symbolic items; anything else falls through)
   4. every function body gets `__sx_enter__(k)` as first statement (entry counter: which repo functions were
      actually executed, and how often - evidence and C19's work counter)
 """
@@ -106,6 +107,14 @@ class T(ast.NodeTransformer):
             ast.Call(func=ast.Name('__sx_fstr__', ast.Load()), args=[ast.List(elts=parts, ctx=ast.Load())],
                      keywords=[]), node)
 
+    def visit_Call(self, node):
+        self.generic_visit(node)
+        if isinstance(node.func, ast.Attribute) and node.func.attr == 'join' and len(node.args) == 1 and not node.keywords \
+                and not isinstance(node.args[0], ast.Starred):
+            return ast.copy_location(
+                ast.Call(func=ast.Name('__sx_join__', ast.Load()), args=[node.func.value, node.args[0]], keywords=[]), node)
+        return node
+
     def visit_Return(self, node):
         self.generic_visit(node)
         if self.in_hash and node.value is not None:
@@ -157,6 +166,21 @@ def sx_getitem(a, k):
             return a[k]
         return a[k.__index__()]
     return a[k]
+
+
+def sx_join(sep, it):
+    """`sep.join(it)` where the items may be symbolic byte / bit strings (the C implementation only takes real ones)"""
+    if _real_isinstance(sep, (bytes, bytearray, str)):
+        items = list(it)
+        if any(_real_isinstance(x, (C.SymBytes, C.SymBitStr, C.AsciiText)) for x in items):
+            out = None
+            for i, x in enumerate(items):
+                if i and len(sep):
+                    out = out + sep
+                out = x if out is None else out + x
+            return out
+        return sep.join(items)
+    return sep.join(it)
 
 
 RAW_HASH = [False]
@@ -482,6 +506,7 @@ class Finder(importlib.abc.MetaPathFinder, importlib.abc.Loader):
         g['__sx_hash__'] = sx_hash
         g['__sx_fstr__'] = sx_fstr
         g['__sx_enter__'] = sx_enter
+        g['__sx_join__'] = sx_join
         g['isinstance'] = sx_isinstance
         g['int'] = SxInt
         g['bytes'] = SxBytes
